@@ -391,3 +391,79 @@ func c12HumanOps(toks []string) string {
 	}
 	return "." + strings.Join(toks, ".")
 }
+
+// TestVerif_C12_set: the protocol setters (EnableForceHTTP1/2/3, DisableForceHttpVersion,
+// EnableHTTP3, DisableHTTP3, EnableH2C, DisableH2C, Clone) in random order on a real client;
+// the resulting transport state (read in-package) against Dispatch.applySetting.
+func TestVerif_C12_set(t *testing.T) {
+	s := verifh.New(t, "C12", "c12set",
+		"random sequences (0..9) of EnableForceHTTP1/2/3, DisableForceHttpVersion, EnableHTTP3, DisableHTTP3, EnableH2C, DisableH2C, Clone on C(); observable = (forceHttpVersion, t3 != nil, t2.AllowHTTP, DialTLSContext != nil) read from the real Transport; oracle: a forced HTTP/3 always has its round tripper; non-trivial = sequences of at least 2 setters")
+	r := s.Rand()
+	toks := []string{"f1", "f2", "f3", "uf", "e3", "d3", "eh", "dh", "cl"}
+	n := verifh.N(3000, 100000)
+	for i := 0; i < n; i++ {
+		c := C()
+		k := r.Intn(10)
+		var seq []string
+		cloned := false
+		disabledWhileForced := false
+		for j := 0; j < k; j++ {
+			tk := toks[r.Intn(len(toks))]
+			seq = append(seq, tk)
+			switch tk {
+			case "f1":
+				c.EnableForceHTTP1()
+			case "f2":
+				c.EnableForceHTTP2()
+			case "f3":
+				c.EnableForceHTTP3()
+			case "uf":
+				c.DisableForceHttpVersion()
+			case "e3":
+				c.EnableHTTP3()
+			case "d3":
+				if c.GetTransport().forceHttpVersion == h3 {
+					disabledWhileForced = true // the input class of fixes/C12-4
+				}
+				c.DisableHTTP3()
+			case "eh":
+				c.EnableH2C()
+			case "dh":
+				c.DisableH2C()
+			case "cl":
+				c = c.Clone()
+				cloned = true
+			}
+		}
+		tr := c.GetTransport()
+		f := map[httpVersion]string{"": "-", h1: "1", h2: "2", h3: "3"}[tr.forceHttpVersion]
+		allow := c12B(tr.t2.AllowHTTP)
+		if cloned {
+			allow = "?"
+		}
+		impl := fmt.Sprintf("force=%s h3=%s allow=%s dial=%s", f, c12B(tr.t3 != nil), allow, c12B(tr.DialTLSContext != nil))
+		ok := !(tr.forceHttpVersion == h3 && tr.t3 == nil)
+		class := ""
+		if disabledWhileForced {
+			class = "forced-h3-after-disable-panics"
+		}
+		if !ok {
+			c12Count(s, "broken:force-h3-without-round-tripper")
+		}
+		c12Count(s, "force="+f)
+		if tr.t3 != nil {
+			c12Count(s, "h3-enabled")
+		}
+		line := "c12set 1 -"
+		if len(seq) > 0 {
+			line = "c12set 1 " + strings.Join(seq, ",")
+		}
+		s.Case(line, impl, ok, class, len(seq) >= 2, "C()."+strings.Join(seq, "."))
+	}
+	for _, must := range []string{"force=-", "force=1", "force=2", "force=3", "h3-enabled"} {
+		if c12Hist[s][must] == 0 {
+			t.Errorf("never reached bucket %q", must)
+		}
+	}
+	s.Finish()
+}
